@@ -1270,6 +1270,10 @@ class SSHConnection(SSHPacketHandler, asyncio.Protocol):
 
         assert self._trusted_host_keys is not None
 
+        # A server matches again for each host-based request. Keys trusted
+        # for the host named in an earlier request say nothing about this one.
+        self._trusted_host_keys = set()
+
         for key in trusted_host_keys:
             self._trusted_host_keys.add(key)
 
